@@ -97,7 +97,8 @@ META = {
   "assignments enumerated, callee bodies entered); list-or-array arguments are converted before arithmetic (ARR); the *_pure_IC "
   "indicator arrays mark exactly the requested sets (alias-aware taint, ICP); with a nodelist in scope positional data is built "
   "over nodelist, never in graph order (ORD). "
-  "Aggregates over a block of the solution are taken before the block is reshaped in place to three dimensions (R4s); no dict.fromkeys / [v]*n hands one mutable object to every degree class or node (SHARE over analytic).",
+  "Aggregates over a block of the solution are taken before the block is reshaped in place to three dimensions (R4s); no dict.fromkeys / [v]*n hands one mutable object to every degree class or node (SHARE over analytic). "
+  "The defaultdict status map is only subscripted, never counted or iterated (DEFMAP); no right-hand side writes into the state vector the integrator hands it (R5 on the 21 right-hand sides); a 3-D block is not transposed with .T (R4s).",
   "Not decided: solver tolerance, bounds [0,N], monotonicity, documented order of return tuples (docstrings are inconsistent), array shapes.",
   "ast: flag-enumerating abstract interpreter (R2/R3), linear normaliser (CONS), layout agreement by offset evaluation (R4), call-binding (R1/R16w), role rules"),
  "C09": _m(
@@ -176,7 +177,8 @@ META = {
   "Gillespie simulators the clock rate is the sum of the CURRENT total weights of the candidate sets, recomputed after every event "
   "(symbolic expansion, RATE / R11c). "
   "_ListDict_ keeps no mutable class-level attribute (STATE): the candidate sets of one run are not those of the previous one. "
-  "Every loop of Gillespie_simple_contagion's event section that changes candidate sets carries the roundoff guard.",
+  "Every loop of Gillespie_simple_contagion's event section that changes candidate sets carries the roundoff guard. "
+  "The weighted lists of Gillespie_SIR / Gillespie_SIS / Gillespie_simple_contagion hold exactly the enabled candidates (R11, R11s): a stale or dropped entry makes the total differ from the sum of the current weights.",
   "Not decided: floating-point drift of _total_weight ('to rounding'); negative increments (outside the quantifier).",
   "ast: class-invariant rules on symbolic store deltas and control-context facts (R12), symbolic rate expansion (RATE)"),
  "C17": _m(
@@ -192,7 +194,8 @@ META = {
   "they reach (set algebra on keys views included); selection lists sorted(); no draw control dependent on return_full_data; "
   "full-data hand-off reads only executed events; no simulator modifies its arguments (a repeated call sees the same inputs); no "
   "state survives a call (no allocating default argument, no mutable class-level attribute: STATE). "
-  "Iteration over the sets held by a mapping of sets (nx.utils.groups) counts as hash-ordered iteration (R7b).",
+  "Iteration over the sets held by a mapping of sets (nx.utils.groups) counts as hash-ordered iteration (R7b). "
+  "The initial infected set is normalised as in every sibling and then used in the caller's order (R10a/b); initially recovered nodes are marked whether or not full data is requested (R10c/d).",
   "Not decided: byte equality across processes (a two-execution property).",
   "ast: forbidden-source scan with positive fixture (R7a), container-kind inference for set iteration (R7b), control dependence (R7c), argument-effect analysis (R5)"),
  "C19": _m(
@@ -201,7 +204,9 @@ META = {
   "side it calls (flow-sensitive alias walk: same / view; bottom-up effect summaries to a fixpoint); no global statements; a "
   "mapping of defaultdict rows that the package itself produces (get_Pnk) is read only with keys of the row read (R5d: a miss "
   "would insert into the caller's object); no allocating default argument or mutable class attribute (STATE). "
-  "Objects are followed through displays (for b in (Y0, XY0)) and shallow copies (X.copy(), dict(X), list(X): the rows of a copied dict of dicts are still the caller's); SHARE over analytic.",
+  "Objects are followed through displays (for b in (Y0, XY0)) and shallow copies (X.copy(), dict(X), list(X): the rows of a copied dict of dicts are still the caller's); SHARE over analytic. "
+  "The state vector handed to an ODE right-hand side is not written through any view of it. "
+  "Containers handed back by user callbacks (delay lists of fast_nonMarkov_SIS, influence sets of Gillespie_complex_contagion) are read, never changed (H-chain, R11c).",
   "Not decided: 'returns identical results' beyond absence of effects and hidden state.",
   "ast: interprocedural argument-effect analysis (R5), read-inserts rule for defaultdict rows (R5d)"),
  "C20": _m(
